@@ -1430,7 +1430,17 @@ func (v *visitor) visitArgumentList(c fql.IArgumentListContext, scope *scope) ([
 func (v *visitor) visitParam(c fql.IParamContext, scope *scope) (core.Expression, error) {
 	ctx := c.(*fql.ParamContext)
 
-	name := ctx.Identifier().GetText()
+	var name string
+
+	// the grammar allows "@" followed by an identifier or by a safe reserved
+	// word (@count, @limit, @filter ...); the latter has no Identifier node
+	if id := ctx.Identifier(); id != nil {
+		name = id.GetText()
+	} else if reserved := ctx.SafeReservedWord(); reserved != nil {
+		name = reserved.GetText()
+	} else {
+		return nil, v.unexpectedToken(ctx)
+	}
 
 	scope.AddParam(name)
 
